@@ -73,11 +73,15 @@ def run_with_edits(pcode: str, edits: list[tuple[int, list]], total: int):
                          "after": {"started": list(after.started_line_ids), "executed": list(after.executed_line_ids),
                                    "failed": list(after.failed_line_ids)},
                          "marks_before": marks_before, "exec_before": len(run.exec_log)})
-        while t < total:
+        # an accepted edit restarts the method (known finding): give the edited run as many ticks after its last
+        # edit as the reference run gets in total, so that "a line is lost" is never a matter of the horizon
+        last_edit = max([e[0] for e in edits], default=0)
+        while t < last_edit + total + 20:
             snap = run.tick()
             t += 1
         return {"edits": info, "marks": marks_of(snap), "method_ends": run.method_ends, "exec": Counter(e[1] for e in run.exec_log if e[0] == "init"),
                 "raised": run.tick_errors, "status": snap["tags"].get("Method Status"),
+                "sys": str(snap["raw_tags"].get("System State")),
                 "final_pcode": "\n".join(c for _, c in (info[-1]["new"] if info and info[-1]["res"] == "ok" else []))}
     finally:
         run.close()
@@ -120,15 +124,16 @@ def oracle(case) -> list[Failure]:
             ref_status = snap["tags"].get("Method Status")
         finally:
             ref.close()
-        if ref_status != "Error" and a["status"] != "Error":
+        # (a run that was error-paused before the edit stays paused until the user unpauses: not comparable)
+        if ref_status != "Error" and a["status"] != "Error" and a["sys"].endswith("Running") and \
+                not any(e["status_before"][2] for e in a["edits"]):
             got = Counter(a["marks"])
             more = {m: (got[m], ref_marks[m]) for m in got if got[m] > ref_marks[m]}
             less = {m: (got[m], ref_marks[m]) for m in ref_marks if got[m] < ref_marks[m]}
             if more:
                 fails.append(Failure("edit-reexecutes-started-line", case,
                                      f"marks set more often than in a run of the final method from the start: {more}"))
-            elif less and a["method_ends"] > 0 and a["edits"][-1]["at"] < total - 10:
-                # only judged when the edited run has reached the end of the method (after the last edit)
+            elif less:
                 fails.append(Failure("edit-loses-line", case,
                                      f"marks missing compared with a run of the final method from the start: {less}"))
     if not accepted_any and a["edits"] and all(e["res"] != "ok" for e in a["edits"]):
